@@ -38,6 +38,26 @@ PROPS = {
     "C01": dict(test="TestC01", level="exploration", runs=[("", "plain", 16)], timeout=(900, 5400), floor=(2000, 200),
                 rule="case = generated (config, relationships, 6 queries) x modes {ast-default, opl-default, opl-strict} x insertion orders/schedules; "
                      "non-trivial = the reference needed more than the direct lookup AND the engine issued >= 2 storage calls; distinct by (case, mode, query)"),
+    "C16": dict(test="TestC16", level="exploration", runs=[("", "plain", 16)], timeout=(900, 5400), floor=(25000, 600),
+                rule="case = one generated batch of 1..350 API tuples over a pool of adversarial names (modes distinct / repeat-heavy / obj-eq-subj / mixed / page-edge / adversarial-small), "
+                     "run through the real Mapper + SQLite persister (FromTuple/ToTuple/FromQuery/ToQuery/FromSubjectSet/ToTree, MapStringsToUUIDs[ReadOnly], MapUUIDsToStrings) and, for the valid-UTF-8 tuples, "
+                     "through REST PUT/PATCH + gRPC Transact -> list (REST+gRPC, paged) -> list by name -> expand -> check on a fresh database; evaluation = one oracle decision (a position-wise / multiset comparison); "
+                     "non-trivial = batch of more than one tuple that repeats a string or has more than 100 distinct strings (crosses the lookup page); distinct by case",
+                assumptions=["names that are not valid UTF-8 are exercised at the mapper API only (JSON and proto3 cannot carry them)",
+                             "UUIDv5 collisions are out of reach", "gRPC write requests are kept below the server's default 4 MiB receive limit"]),
+    "C17": dict(test="TestC17", level="exploration", runs=[("", "plain", 16)], timeout=(900, 5400), floor=(37000, 13000),
+                rule="case = generated (configuration, stored relationships) + a sequence of 30 read/syntax API requests (17 kinds: 9 REST incl. all 5 check variants, expand, list, namespaces, OPL syntax check and the write router's DELETE by a non-matching query; "
+                     "8 gRPC: Check, BatchCheck, Expand, ListRelationTuples, ListNamespaces, Syntax Check, DeleteRelationTuples non-matching) in flavours known / unseen names / unknown namespace / malformed; "
+                     "evaluation = one full-database dump comparison (after every request, plus one per sequence); "
+                     "non-trivial = a request that mentions at least one name absent from the database and was answered by the handler (2xx/403/404, gRPC OK/NotFound), i.e. reached the mapping layer; distinct by (case, request position)",
+                assumptions=["inputs owned by C13 (null batch entries, absent gRPC subjects that handlers dereference) are not sent; handler panics and 5xx answers are counted, not judged"]),
+    "C18": dict(test="TestC18", level="exploration", runs=[("", "plain", 16)], timeout=(900, 5400), floor=(12000000, 7500),
+                rule="case = 192 generated API tuples (half projected into the string domain), 96 API queries, 256 arbitrary separator-rich strings and 4 parse-command files; "
+                     "evaluation = one oracle decision (one value through one encoding: JSON, URL query, proto FromProto / FromDataProvider, string form on its domain, the arbitrary-string re-parse clause, one parse-command file); "
+                     "non-trivial = case containing at least one in-domain tuple with separator characters in non-significant positions and at least one arbitrary string accepted by FromString; distinct by case "
+                     "(value-level counts are in the counters)",
+                assumptions=["JSON / URL / proto round trips are claimed for valid UTF-8 field contents (the encodings cannot carry other byte strings)",
+                             "the string-form domain is the one stated at the top of harness/verifh/c18_test.go"]),
 }
 
 ASSUMPTIONS_COMMON = [
